@@ -2,8 +2,8 @@ SPECIFICATION GenSpec
 CONSTANTS
   Kinds = {"removeslash", "addslash", "static1", "static2", "auth_rel", "auth_query", "auth_abs"}
   Methods = {"GET", "HEAD"}
-  SegToks = {"a", "empty", "evil", "bs", "bsevil", "pslash", "pbs", "sub", "d", "dotdot", "dot", "at", "scheme", "sp", "amp"}
-  PathLen = 4
-  Queries = {"noq", "emptyq", "q1", "qevil", "qsp"}
+  SegToks = {"a", "empty", "evil", "bs", "bsevil", "pslash", "pbs", "sub", "d", "dotdot", "at", "sp", "amp"}
+  PathLen = 2
+  Queries = {"noq", "q1", "qevil"}
   MaxReq = 6
 CHECK_DEADLOCK FALSE
